@@ -180,6 +180,19 @@ class Hist:
             return None
         return cands[rng.randrange(len(cands))]
 
+    def reread(self, s):
+        """Re-read a member right before a read-only op judges it.  Should the object have moved since its last settle
+        (something edited it behind the model's back), the op judges the object as it is *now*; the drift is counted as
+        a cross observation and is for C02's bystander oracle to report, not for the read-only op."""
+        try:
+            net, users = observe.snap(s.real)
+        except Exception:
+            return s.net
+        if not observe.same_view(net, s.net) or users != s.users:
+            self.res.cross.bump('member-drifted-since-last-settle')
+            s.net, s.users = net, users
+        return s.net
+
     def fresh_label(self, rng, net: Net, extra=()):
         # now and then a label that was in use earlier in this run and has been freed (rename / remove): histories
         # re-use names, and anything derived from a label (helper gates, block names, caches) must cope
